@@ -63,7 +63,7 @@ ASSUMPTIONS = [
     'non-ASCII string',
     'a scope id is over-long above 15 characters (IFNAMSIZ-1), the limit the statement refers to',
 ]
-INTERPRETER_FLAGS = [[], ['-O'], [], ['-bb']]
+INTERPRETER_FLAGS = [[], ['-O'], ['-X', 'dev'], ['-bb']]
 CONCURRENT = lambda case: case.get('kind') != 'twins' and (True)          # pure functions of their arguments; see vlib/concurrent.py
 SHARDS = {'quick': 4, 'thorough': 16}
 MIN_DISTINCT = {'quick': 20000, 'thorough': 400000}
@@ -915,8 +915,41 @@ def gen_mac(rng, cls):
             g = groups[i]
             groups[i] = g[:j] + chr(base + int(g[j])) + g[j + 1:]
         return dict(kind='mac', cls='mac/unicode-digits', groups=groups, sep=':')
+    if cls == 'alike':
+        # exact MAC shape after some normalisation only: a group (or a digit) is a code point whose casefold(), lower(),
+        # upper() or NFKC/NFKD form spells hex digits (U+FB00 LATIN SMALL LIGATURE FF casefolds to 'ff', full-width
+        # and mathematical letters and digits normalise to ASCII)
+        one, two = _hex_impostors()
+        for i in rng.sample(range(6), rng.choice([1, 1, 2, 6])):
+            if two and rng.random() < 0.6:
+                groups[i] = rng.choice(two)
+            else:
+                j = rng.randrange(2)
+                groups[i] = groups[i][:j] + rng.choice(one) + groups[i][j + 1:]
+        return dict(kind='mac', cls='mac/hex-look-alikes', groups=groups, sep=':')
     groups[rng.randrange(6)] = rng.choice(MAC_BADGRP[2:])
     return dict(kind='mac', cls='mac/bad-group', groups=groups, sep=':')
+
+
+_HEX_IMPOSTORS = []
+
+
+def _hex_impostors():
+    if not _HEX_IMPOSTORS:
+        import sys
+        import unicodedata
+        one, two = [], []
+        hexd = set('0123456789abcdefABCDEF')
+        for cp in range(0x80, sys.maxunicode + 1):
+            ch = chr(cp)
+            if unicodedata.category(ch) in ('Cs', 'Cn'):
+                continue
+            for form in (ch.casefold(), ch.lower(), ch.upper(), unicodedata.normalize('NFKC', ch), unicodedata.normalize('NFKD', ch)):
+                if form != ch and 1 <= len(form) <= 2 and set(form) <= hexd:
+                    (one if len(form) == 1 else two).append(ch)
+                    break
+        _HEX_IMPOSTORS.extend([one, two])
+    return _HEX_IMPOSTORS
 
 
 QUOTA_V4 = [('valid', 35), ('range', 15), ('count', 15), ('lz', 10), ('hexoct', 8), ('junk', 9), ('decor', 8)]
@@ -924,7 +957,7 @@ QUOTA_V6 = [('valid', 30), ('scope', 22), ('scope-odd', 4), ('scope-badbase', 4)
             ('colons', 8), ('v4tail-bad', 6), ('decor', 5)]
 QUOTA_CIDR = [('valid', 35), ('range', 14), ('missing', 8), ('empty', 6), ('slashes', 14), ('spelling', 8),
               ('junk', 5), ('badaddr', 10)]
-QUOTA_MAC = [('valid', 35), ('count', 15), ('sep', 13), ('suffix', 10), ('prefix', 6), ('onedigit', 6), ('bad', 9), ('unidigit', 6)]
+QUOTA_MAC = [('valid', 33), ('count', 14), ('sep', 12), ('suffix', 9), ('prefix', 6), ('onedigit', 6), ('bad', 8), ('unidigit', 6), ('alike', 6)]
 
 
 def pick_quota(rng, quota):
@@ -957,7 +990,21 @@ def mutate(rng, s):
     return s
 
 
-DIRECTED_RAW = [
+# the longest well-formed spellings (every group four digits, an embedded quad with three-digit octets, a three-digit prefix,
+# a 15-character scope) and one character more: a length guard must count every part
+LONGEST = []
+for _a in ('1111:2222:3333:4444:5555:6666:123.123.123.123', 'ffff:ffff:ffff:ffff:ffff:ffff:255.255.255.255',
+           '1111:2222:3333:4444:5555:6666:7777:8888', 'ABCD:EF01:2345:6789:abcd:ef01:2345:6789', '255.255.255.255',
+           '123.123.123.123', '0000:0000:0000:0000:0000:ffff:192.168.100.200'):
+    LONGEST.append(_a)
+    for _p in ('/128', '/100', '/127', '/32', '/8', '/129', '/1000', '/0128'):
+        LONGEST.append(_a + _p)
+    if ':' in _a:
+        LONGEST.append(_a + '%' + 'e' * 15)
+        LONGEST.append(_a + '%' + 'e' * 16)
+        LONGEST.append(_a + '%' + 'e' * 15 + '/128')
+
+DIRECTED_RAW = LONGEST + [
     # D6 / D8 witnesses and the repository's documented examples
     '10.0.0.0/8/8', '::/0/0', '1.2.3.4\x00', 'aa:bb:cc:dd:ee:ff\n', '10.0.0.0//8', '10.0.0.0/8/', '\x00',
     '::1\x00', '::%\x00', '10.0.0.0/8\x00', '\x0010.0.0.0/8', 'aa:bb:cc:dd:ee:ff\x00', '80\x00', '/', '//', '///',
@@ -985,6 +1032,12 @@ LONGS = [('x', 100000), ('1', 5000), ('1.', 3000), (':', 10000), ('a:', 5000), (
          (' ', 5000), ('٣', 3000), ('é', 9000), ('/', 9000), ('1.2.3.4/', 500), ('::', 4000), ('0:', 8),
          ('_1', 3000), ('+', 2000), ('-', 2000), ('e', 16), ('e', 4000)]
 
+
+
+def REJECTED_FUNCS(ctx):
+    from oslo_utils import netutils as nu
+    return [nu.is_valid_ip, nu.is_valid_ipv4, nu.is_valid_ipv6, nu.is_valid_cidr, nu.is_valid_mac, nu.is_valid_port,
+            nu.is_valid_ipv6_cidr, nu.is_valid_icmp_type, nu.is_valid_icmp_code]
 
 
 def HAMMER(ctx):
